@@ -53,22 +53,31 @@ Definition root_by_hash (db : tdb) (h : N) : option root_row := find (fun r => N
 Definition tree_reorg (db : tdb) (b : N) : tdb :=
   mkTdb (filter (fun r => r_block r <? b) (t_roots db)) (t_rht db).
 
+(* ---- generic part: parametrised by the node hash and the zero-hash table, so that the theorems of
+   Proofs/TreeStoreProofs.v hold for every (injective) node function; the executable instances below fix
+   node := Keccak-256 over 64 bytes and zhf := the precomputed table ---- *)
+Module Gen.
+Section S.
+Variable HT : nat.                    (* tree height: a parameter here so that no proof can unfold 2^32 *)
+Variable node : N -> N -> N.
+Variable zhf : nat -> N.
+
 (* Tree.GetProof / getSiblings and Tree.GetLeaf *)
-Definition get_proof (db : tdb) (idx root : N) : list N := swalk zh (lookup db) HEIGHT root (bitN idx).
-Definition get_proof_used_zero (db : tdb) (idx root : N) : bool := swalk_used_zero (lookup db) HEIGHT root (bitN idx).
+Definition get_proof (db : tdb) (idx root : N) : list N := swalk zhf (lookup db) HT root (bitN idx).
+Definition get_proof_used_zero (db : tdb) (idx root : N) : bool := swalk_used_zero (lookup db) HT root (bitN idx).
 Definition get_leaf (db : tdb) (idx root : N) : option N :=
-  match walk (lookup db) HEIGHT root (bitN idx) with Some (_, y) => Some y | None => None end.
+  match walk (lookup db) HT root (bitN idx) with Some (_, y) => Some y | None => None end.
 (* tree.CalculateRoot *)
-Definition calculate_root (leaf : N) (proof : list N) (idx : N) : N := calc nodeN 0 proof leaf (bitN idx).
+Definition calculate_root (leaf : N) (proof : list N) (idx : N) : N := calc node 0 proof leaf (bitN idx).
 
 (* AppendOnlyTree.initCache *)
 Definition init_cache (db : tdb) : terr + tmem :=
   match last_root db with
-  | None => inr (mkTmem (-1)%Z (repeat 0 HEIGHT))
+  | None => inr (mkTmem (-1)%Z (repeat 0 HT))
   | Some lr =>
-    match init_walk (lookup db) HEIGHT (r_hash lr) (bitN (r_pos lr)) (cache_of_list 0 (repeat 0 HEIGHT)) with
+    match init_walk (lookup db) HT (r_hash lr) (bitN (r_pos lr)) (cache_of_list 0 (repeat 0 HT)) with
     | None => inl ENotFound
-    | Some c => inr (mkTmem (Z.of_N (r_pos lr)) (cache_to_list HEIGHT c))
+    | Some c => inr (mkTmem (Z.of_N (r_pos lr)) (cache_to_list HT c))
     end
   end.
 
@@ -78,9 +87,9 @@ Definition init_cache (db : tdb) : terr + tmem :=
 Definition add_leaf_exec (db : tdb) (mem : tmem) (blk bpos idx leaf : N) : tmem * (terr + tdb) :=
   let chk (mem : tmem) :=
     let c := cache_of_list 0 (m_cache mem) in
-    let '(root, c', nodes) := Merkle.climb3 nodeN zh HEIGHT 0 (bitN idx) leaf c in
+    let '(root, c', nodes) := Merkle.climb3 node zhf HT 0 (bitN idx) leaf c in
     (* the cache is written during the loop, before any storage call *)
-    let mem1 := mkTmem (m_last mem) (cache_to_list HEIGHT c') in
+    let mem1 := mkTmem (m_last mem) (cache_to_list HT c') in
     match store_root db (mkRoot root idx blk bpos) with
     | None => (mem1, inl EConstraint)
     | Some db1 =>
@@ -104,10 +113,25 @@ Definition rollback_mem_unfixed (mem : tmem) (n_added : nat) : tmem :=
 
 (* UpdatableTree.UpsertLeaf: returns new root hash and db *)
 Definition upsert_leaf_exec (db : tdb) (blk bpos idx leaf : N) : terr + (N * tdb) :=
-  let root := match last_root db with None => zh HEIGHT | Some r => r_hash r end in
-  let sibs := swalk zh (lookup db) HEIGHT root (bitN idx) in
-  let '(newroot, nodes) := upsert_climb nodeN 0 sibs leaf (bitN idx) in
+  let root := match last_root db with None => zhf HT | Some r => r_hash r end in
+  let sibs := swalk zhf (lookup db) HT root (bitN idx) in
+  let '(newroot, nodes) := upsert_climb node 0 sibs leaf (bitN idx) in
   match store_root db (mkRoot newroot idx blk bpos) with
   | None => inl EConstraint
   | Some db1 => inr (newroot, mkTdb (t_roots db1) (store_nodes (t_rht db1) nodes))
   end.
+
+End S.
+End Gen.
+
+(* ---- executable instances (real Keccak) ---- *)
+Definition get_proof := Gen.get_proof HEIGHT zh.
+Definition get_proof_used_zero := Gen.get_proof_used_zero HEIGHT.
+Definition get_leaf := Gen.get_leaf HEIGHT.
+Definition calculate_root := Gen.calculate_root nodeN.
+Definition init_cache := Gen.init_cache HEIGHT.
+Definition add_leaf_exec := Gen.add_leaf_exec HEIGHT nodeN zh.
+Definition mem_commit_leaf := Gen.mem_commit_leaf.
+Definition rollback_mem := Gen.rollback_mem.
+Definition rollback_mem_unfixed := Gen.rollback_mem_unfixed.
+Definition upsert_leaf_exec := Gen.upsert_leaf_exec HEIGHT nodeN zh.
